@@ -2,7 +2,7 @@
    ADD-based oracle (compile, boundary diagrams, restrict, sum, modelcount) is the Shapley value of the KNN game. *)
 From Coq Require Import List Arith ZArith QArith Lia Bool Setoid.
 From DS Require Import Util.SumQ Spec.Shapley Model.ADD Spec.Count Spec.Knn Model.Oracle Model.ShapleyAdd
-     Proofs.ShapleyAxioms Proofs.KernelFull Proofs.KnnShapley Proofs.OracleExact Proofs.OracleValid Proofs.CompileValid.
+     Proofs.ShapleyAxioms Proofs.KernelFull Proofs.KnnShapley Proofs.OracleExact Proofs.OracleValid Proofs.CompileValid Proofs.CompileGraph.
 Import ListNotations.
 Local Open Scope Q_scope.
 
@@ -85,3 +85,17 @@ Proof.
   apply shapley_add_point_ext; [|exact Hi]. intros i' t1 t2 Hi'. unfold oracle_of.
   rewrite (oracle_compile_exact (mkProb n rows labels ds (n - 1) K C) comps i' t1 t2); [reflexivity|exact Hh|exact Hn|exact Hi'].
 Qed.
+
+(* the same with the graph step of compile() inside the model: any visiting order of the units for the greedy leaf selection
+   (the code: np.argsort(degrees)) and any row-closed partition of the units (the code: scipy's connected components) *)
+Theorem add_graph_is_shapley n K C rows labels dists ucols nulls order components i :
+  (2 <= n)%nat -> (i < n)%nat -> (1 <= K)%nat ->
+  graph_ok n rows order components = true ->
+  (forall r, (r < length rows)%nat -> (nth r labels 0 < C)%nat) ->
+  (forall ds, In ds dists -> length ds = length rows /\ NoDup (map Qred ds)) ->
+  let comps := build_hints n rows order components in
+  nth i (shapley_add (map (fun ds => mkProb n rows labels ds (n - 1) K C) dists)
+                     (map (fun p => oracle_of p (compile_add (p_type p) comps) (map (row_locs 0 comps) (p_rows p)))
+                          (map (fun ds => mkProb n rows labels ds (n - 1) K C) dists)) ucols nulls n) 0
+  == shapley n (v_knn K C rows labels dists ucols nulls) i.
+Proof. intros Hn Hi HK Hg Hlab Hd comps. apply add_compile_is_shapley; try assumption. apply graph_hints_ok. exact Hg. Qed.
